@@ -676,4 +676,101 @@ example : glsKappa [[2, 1], [1, 3]] * glsMu [[2, 1], [1, 3]] - glsLam [[2, 1], [
   constructor <;> decide +kernel
 
 
+/-! ## the dispatcher `KymoTrack.estimate_diffusion` — for EVERY `optimal_points` and EVERY `_diffusion_gls` function -/
+
+/-- **estimate_max_lag_zero.** `max_lag=0` is treated exactly like `max_lag=None` (the code tests `if max_lag`). -/
+theorem estimate_max_lag_zero (op : OptPts) (glsFn : GlsFn) (t : List Pt) (dt R : Rat) (method : String)
+    (lv vlv : Option Rat) :
+    estimateDiffusion op glsFn t dt R method (some 0) lv vlv = estimateDiffusion op glsFn t dt R method none lv vlv := by
+  unfold estimateDiffusion
+  simp
+
+/-- **estimate_dispatch_cve.** `method="cve"` is `_cve` with the kymograph's blur constant, whatever `max_lag` is. -/
+theorem estimate_dispatch_cve (op : OptPts) (glsFn : GlsFn) (t : List Pt) (dt R : Rat) (L : Option Int)
+    (lv vlv : Option Rat) :
+    estimateDiffusion op glsFn t dt R "cve" L lv vlv =
+      (cve t dt R lv vlv).map fun c => (⟨c.D, c.var, c.lv, true⟩, none) := by
+  unfold estimateDiffusion
+  simp
+
+/-- **estimate_dispatch_ols.** `method="ols"` without a localisation variance: an explicit non-zero `max_lag` gives
+    `olsEstimate` with that `max_lag`; `None` gives `olsAuto` (the number of lags of `determine_optimal_points`). -/
+theorem estimate_dispatch_ols (op : OptPts) (glsFn : GlsFn) (t : List Pt) (dt R : Rat) :
+    (∀ L : Int, L ≠ 0 → estimateDiffusion op glsFn t dt R "ols" (some L) none none =
+      (olsEstimate t dt L).map fun e => (e, some L)) ∧
+    estimateDiffusion op glsFn t dt R "ols" none none none =
+      (olsAuto op t dt).map fun r => (r.1, some (r.2 : Int)) := by
+  constructor
+  · intro L hL
+    unfold estimateDiffusion estimateSimple olsEstimate
+    simp [hL]
+  · have h1 : ("ols" : String) ≠ "cve" := by decide
+    have h2 : ("ols" : String) ≠ "gls" := by decide
+    unfold estimateDiffusion olsAuto estimateSimple olsEstimate
+    simp only [h1, h2, ne_eq, not_true_eq_false, not_false_eq_true, and_false, if_false, if_true,
+      Option.isSome_none, Bool.false_eq_true, or_self, decide_false]
+    cases detOpt op t with
+    | error e => rfl
+    | ok k =>
+      simp only [Except.map]
+      by_cases hk : (k.1 : Int) < 2
+      · simp only [hk, if_true]
+      · simp only [hk, if_false]
+        cases olsFromRows (msdCounts t (some (k.1 : Int))) t.length dt true 1 <;> rfl
+
+/-- **estimate_rejects.** The error branches, in the order the code takes them: an unknown method is a `ValueError`; a
+    localisation variance (or its variance) with an MSD-based method is a `NotImplementedError` before anything is computed;
+    `max_lag < 2` (explicit, non-zero) is a `ValueError` before GLS looks at missing frames; GLS refuses missing frames. -/
+theorem estimate_rejects (op : OptPts) (glsFn : GlsFn) (t : List Pt) (dt R : Rat) (L : Option Int) (lv vlv : Option Rat) :
+    (∀ m : String, m ≠ "cve" → m ≠ "gls" → m ≠ "ols" → estimateDiffusion op glsFn t dt R m L lv vlv = .error "ValueError") ∧
+    (∀ m : String, m = "ols" ∨ m = "gls" → lv.isSome ∨ vlv.isSome →
+      estimateDiffusion op glsFn t dt R m L lv vlv = .error "NotImplementedError") ∧
+    (∀ m : String, m = "ols" ∨ m = "gls" → ∀ l : Int, l ≠ 0 → l < 2 →
+      estimateDiffusion op glsFn t dt R m (some l) none none = .error "ValueError") ∧
+    (∀ l : Int, 2 ≤ l → hasGap t = true → estimateDiffusion op glsFn t dt R "gls" (some l) none none = .error "RuntimeError") := by
+  refine ⟨?_, ?_, ?_, ?_⟩
+  · intro m h1 h2 h3
+    unfold estimateDiffusion
+    simp [h1, h2, h3]
+  · intro m hm hl
+    unfold estimateDiffusion
+    rcases hm with rfl | rfl <;> simp [hl]
+  · intro m hm l h0 h2
+    unfold estimateDiffusion estimateSimple
+    rcases hm with rfl | rfl <;> simp [h0, h2, Except.map]
+  · intro l h2 hg
+    unfold estimateDiffusion estimateSimple
+    have : l ≠ 0 := by omega
+    have h2' : ¬ l < 2 := by omega
+    simp [this, h2', hg, Except.map]
+
+/-- non-vacuity of the branches of `estimate_rejects` (kernel-checked instances) -/
+example : hasGap [(0, 0), (2, 1), (3, 0)] = true ∧
+    estimateDiffusion optimalPointsF glsUnmodelled [(0, 0), (2, 1), (3, 0)] 1 0 "gls" (some 2) none none = .error "RuntimeError" ∧
+    estimateDiffusion optimalPointsF glsUnmodelled [(0, 0), (2, 1), (3, 0)] 1 0 "ols" (some 1) none none = .error "ValueError" ∧
+    estimateDiffusion optimalPointsF glsUnmodelled [(0, 0), (2, 1), (3, 0)] 1 0 "ols" (some 2) (some 1) none
+      = .error "NotImplementedError" ∧
+    estimateDiffusion optimalPointsF glsUnmodelled [(0, 0), (2, 1), (3, 0)] 1 0 "mse" none none none = .error "ValueError" := by
+  refine ⟨by decide, ?_, ?_, ?_, ?_⟩ <;> decide +kernel
+
+/-- **estimate_invariant.** Every method (cve, ols, gls — the latter for any `_diffusion_gls` that is a function of the MSD
+    curve and the number of points), every option combination, every error branch: translating / mirroring the positions and
+    shifting the frame indices changes nothing. -/
+theorem estimate_invariant (op : OptPts) (glsFn : GlsFn) (t : List Pt) (dt R : Rat) (method : String) (L : Option Int)
+    (lv vlv : Option Rat) (c : Rat) (k : Int) :
+    estimateDiffusion op glsFn (translate c t) dt R method L lv vlv = estimateDiffusion op glsFn t dt R method L lv vlv ∧
+    estimateDiffusion op glsFn (mirror t) dt R method L lv vlv = estimateDiffusion op glsFn t dt R method L lv vlv ∧
+    estimateDiffusion op glsFn (frameShift k t) dt R method L lv vlv = estimateDiffusion op glsFn t dt R method L lv vlv := by
+  obtain ⟨o1, o2, o3⟩ := optimal_points_invariant op t c k
+  have g1 : hasGap (translate c t) = hasGap t := hasGap_map (fun p => (p.1, p.2 + c)) id (fun _ => rfl) (fun _ _ => rfl) t
+  have g2 : hasGap (mirror t) = hasGap t := hasGap_map (fun p => (p.1, -p.2)) id (fun _ => rfl) (fun _ _ => rfl) t
+  have g3 : hasGap (frameShift k t) = hasGap t := hasGap_map (fun p => (p.1 + k, p.2)) (· + k) (fun _ => rfl) (fun a b => by omega) t
+  have l1 : (translate c t).length = t.length := by simp [translate]
+  have l2 : (mirror t).length = t.length := by simp [mirror]
+  have l3 : (frameShift k t).length = t.length := by simp [frameShift]
+  unfold estimateDiffusion estimateSimple
+  simp only [cve_translate, cve_mirror, cve_frame_shift, msd_translate, msd_mirror, msd_frame_shift, o1, o2, o3, g1, g2, g3,
+    l1, l2, l3, and_self]
+
+
 end Verif.C09
